@@ -328,6 +328,10 @@ class Unit(HookHost):
             unit.parent = None
             return unit
 
+        def remove(self, unit: "Unit") -> None:
+            super().remove(unit)
+            unit.parent = None
+
         def clear(self) -> None:
             for u in self:
                 u.parent = None
